@@ -213,6 +213,10 @@ class Ev:
             r = self.body(e, payload, loc_)
             if isinstance(r, bool):
                 return r
+        if k == "Field":
+            r = self.val(e, payload, loc_)
+            if isinstance(r, bool):
+                return r
         raise Unx(ekey(e)[:60])
 
 
